@@ -28,8 +28,9 @@ claimed = {
  "C18": "decidable part: the source touched by binding.Auto (query/form/multipart/JSON/XML/none) is proved to follow the method and the media type for symbolic subtypes; successful bind implies validation ran when enabled; codec round-trips are explicitly outside the claim",
  "C19": "status symbolic, payload bytes symbolic: each helper/renderer proved to emit the given status, its documented Content-Type (unchanged when preset, pkg/render) and the given body / callback(E); Accept negotiation proved to pick the first supported type; encoder failures reported not panicked",
  "C20": "credentials and account map symbolic: downstream runs iff credentials are well-formed and accepted, else 401+challenge / 403; override value bytes symbolic: rewrite iff POST and upper(value) in {PUT,PATCH,DELETE}; wrapper lists compose outermost-first and obey abort",
+ "C03": "two in-flight requests on every router shape: each conflicting pair of shared-memory accesses logged by the interpreter is a clock-variable query (program order, lock exclusion, same logical time) decided by the solver; all pairs proved ordered on the repaired tree; races found are replayed natively under the race detector with response comparison",
 }
-NA = {"C03": "concurrency: the clock (partial-order) encoding of request interleavings is not built yet in this session"}
+NA = {}
 reasons_pending = "check under construction in this session (engine built, harness not yet registered)"
 
 man = {
